@@ -1,6 +1,6 @@
 """C08 -- BioConsert returns a local optimum of the Kemeny score."""
 from vf import gen, ref, anchors
-from vf.core import exc_desc
+from vf.core import call, exc_desc
 from vf.lazy import libx, common
 from vf.monitors import algos, large
 
@@ -79,7 +79,7 @@ def gen_case(rng, ctx):
         return case
     big = rng.random() < 0.05 and "C" not in ctx.mode
     nmax = 16 if big else (7 if "C" in ctx.mode else 10)
-    cls, ds = gen.dataset(rng, classes="D2 D2 D3 D3 D4 D9 D10 D11 D8 D7 D15 D13 D16 D16 D17", nmax=nmax, mmax=7)
+    cls, ds = gen.dataset(rng, classes="D2 D2 D3 D3 D4 D9 D10 D11 D8 D7 D15 D13 D16 D16 D17 D14", nmax=nmax, mmax=7)
     ds = libx.normalise_raw(ds)
     scls, sch = gen.scheme(rng, "S1 S2 S3 S3 S3 S8 S8 S6 S9 S10 S11")
     return {"ds": ds, "scheme": sch, "dcls": cls, "scls": scls, "libseed": rng.randrange(10 ** 6),
@@ -129,18 +129,31 @@ def check_case(case, ctx):
     same algorithm objects right afterwards"""
     if case.get("dcls") == "xlarge":
         return check_xlarge(case, ctx)
-    judge(case, ctx, case["ds"])
     ds = case["ds"]
+    shared = libx.mk_dataset(ds)
+    judge(case, ctx, ds, dataset=shared)
+    # history: the Dataset object the BioConsert objects have just used is mutated in place (or a dataset derived from it
+    # is) and searched again: local optimality is judged against the rankings it holds now
+    if len(ref.universe(ds)) >= 2 and case["libseed"] % 2 == 0:
+        import random
+        r2 = random.Random(case["libseed"])
+        kind, ok = algos.mutate_in_place(shared, ds, r2)
+        st_now, now = call(libx.raw_dataset, shared)
+        if ok and st_now == "ok" and ref.universe(now):
+            ctx.count("runs_after_in_place_mutation")
+            ctx.count("history:" + kind)
+            judge({**case, "after": kind, "original_ds": ds}, ctx, now, dataset=shared)
     if len(ds) >= 2:
         k = 1 + case["libseed"] % (len(ds) - 1)
         ctx.count("second_calls_on_reordered_rankings")
         judge({**case, "reordered_from": ds}, ctx, ds[k:] + ds[:k])
 
 
-def judge(case, ctx, ds):
+def judge(case, ctx, ds, dataset=None):
     sch = case["scheme"]
     common.set_case(ctx, case)
-    dataset = libx.mk_dataset(ds)
+    if dataset is None:
+        dataset = libx.mk_dataset(ds)
     scheme = libx.mk_scheme(sch)
     elems = ref.universe(ds)
     table = ref.cost_table(ds, sch, elems)
@@ -151,6 +164,8 @@ def judge(case, ctx, ds):
         sub = {"ds": ds, "scheme": sch, "configs": [cfg], "libseed": case["libseed"]}
         if "reordered_from" in case:
             sub["previous_call_on"] = case["reordered_from"]
+        if "after" in case:
+            sub["after"], sub["original_ds"] = case["after"], case["original_ds"]
         st, cons, _ = algos.run_config(cfg, dataset, scheme, False, case["libseed"])
         if st != "ok":
             if st == "exc" and algos.refusal_is_documented(cfg, cons, complete, False):
@@ -202,6 +217,8 @@ def reach(counters, tier, info):
                             ("second calls of the same objects on the same rankings in another order",
                              "second_calls_on_reordered_rankings", 800 * k),
                             ("gains below the threshold legitimately left on the table", "gain_left_below_threshold", 5 * k),
+                            ("Dataset objects searched again after an in-place mutation", "runs_after_in_place_mutation", 400 * k),
+                            ("... where the step is remove_empty_rankings", "history:remove_empty", 20 * k),
                             ("rankings over 63-1025 elements / 40-257 rankings checked (vectorised reference)",
                              "xlarge_rankings_checked", 12 if tier == "quick" else 60),
                             ("... with a score above 2^31 / 1000", "xlarge_rankings_with_score_above_2^31/1000",
